@@ -1,6 +1,7 @@
 package main
 
 import (
+	"sort"
 	"strings"
 
 	"golang.org/x/tools/go/ssa"
@@ -28,6 +29,43 @@ func init() {
 
 // justification classifies an edge literal; "" = none.
 func (m *Model) justification(l Lit) string {
+	if j := m.justification1(l); j != "" {
+		return j
+	}
+	// the tested result of a library function: every return of that function consistent with
+	// the test carries a justification among its own guards
+	if m.justDepth > 3 {
+		return ""
+	}
+	m.justDepth++
+	defer func() { m.justDepth-- }()
+	paths, ok := m.resultPaths(l)
+	if !ok || len(paths) == 0 {
+		return ""
+	}
+	var why []string
+	for _, p := range paths {
+		found := ""
+		var keys []string
+		for k := range p {
+			keys = append(keys, k)
+		}
+		sort.Strings(keys)
+		for _, k := range keys {
+			if j := m.justification(p[k]); j != "" {
+				found = j
+				break
+			}
+		}
+		if found == "" {
+			return ""
+		}
+		why = append(why, found)
+	}
+	return "every return consistent with " + clip(l.String(), 60) + ": " + strings.Join(uniqStrings(why), " / ")
+}
+
+func (m *Model) justification1(l Lit) string {
 	s := l.S
 	vfn := ""
 	if f := m.ValidateFn(); f != nil {
